@@ -55,6 +55,7 @@ type paramInfo struct {
 	key          string
 	qHas, bHas   *Term
 	qVal, bVal   *Term
+	qRaw         *Term // the value as it stands in the raw query (nil: Go's QueryEscape of qVal)
 }
 
 type reqInfo struct {
@@ -75,12 +76,15 @@ type reqInfo struct {
 	lazyExtra bool
 	url       *urlInfo
 	explicitHdr map[string][]Value
+	rawParts    []Value // the raw query, once inspected (models_strings.go)
+	queryClosed bool    // no further parameters in the query
 }
 
 type urlInfo struct {
 	req      *reqInfo // request URL: Query() is the request's query map
 	rawQuery *Term
 	simple   bool // built by the harness from components over plain alphabets
+	shaped   bool // parsed from symbolic text under the two-shape contract
 }
 
 func (x *Exec) param(ri *reqInfo, key string) *paramInfo {
@@ -92,6 +96,9 @@ func (x *Exec) param(ri *reqInfo, key string) *paramInfo {
 		// an arbitrary further parameter: presence and value symbolic
 		p.qHas = x.sym(ri.name+".q."+key+"?", SBool)
 		p.qVal = x.sym(ri.name+".q."+key, SStr)
+		if ri.queryClosed {
+			p.qHas = FalseT
+		}
 		p.bHas = x.sym(ri.name+".b."+key+"?", SBool)
 		p.bVal = x.sym(ri.name+".b."+key, SStr)
 		x.assume(Implies(p.bHas, bodyMethod(ri.method)))
@@ -314,7 +321,7 @@ func registerHTTPModels(e *Engine) {
 		mo := &MapObj{Epoch: x.epoch}
 		has := UFSort("urlquery.nonempty", SBool, rq)
 		x.assume(Implies(Eq(rq, StrC("")), Not(has)))
-		if ui != nil && ui.simple {
+		if ui != nil && (ui.simple || ui.shaped) {
 			// query over [a-z0-9=]*: one key whenever it is not empty
 			x.assume(Eq(has, Not(Eq(rq, StrC("")))))
 		}
